@@ -95,10 +95,17 @@ structure Derived (F : Type) where
   gradNs : F
   nsgrad : List F
 
+/-- one row of the dense `K × nSel` table behind the flat values array: the value of the pair
+(source, event `i`) where the event selection paired them, `0` elsewhere (`R_i = np.zeros(…)`,
+`R_i[evt_idxs[src_mask]] += …`) -/
+def denseRow (nSel : Nat) (idx : List Nat) (vals : List F) : List F :=
+  (List.range nSel).map (fun i => (((idx.zip vals).find? (fun p => p.1 == i)).map (·.2)).getD 0)
+
 /-- `SourceWeightedPDFRatio.get_ratio` → `Xi = (Ri - 1)/N` → `calculate_log_lambda_and_grads` -/
 def derive (T : Top D S F) (d : D) (s : S) (q : Query F) (rik : List (List F)) : Derived F :=
   let nSel := (T.W.bkg d s).length
-  let ri := Weights.ratioWeighted (T.ak s q) rik nSel
+  let dense := List.zipWith (fun k vals => denseRow nSel (T.W.sel d s k) vals) (List.range rik.length) rik
+  let ri := Weights.ratioWeighted (T.ak s q) dense nSel
   let N := T.nEvents d
   let xs := ri.map (LLH.xOfRatio N)
   ⟨ri, LLH.llr T.opa N q.ns xs, Grad.gradNs T.opa N q.ns xs, xs.map (Grad.nsGradI T.opa q.ns)⟩
